@@ -23,6 +23,7 @@
 package main
 
 import (
+	"context"
 	"flag"
 	"fmt"
 	"math/rand"
@@ -88,7 +89,7 @@ func runWS(sv *server, cs *connState, seed int64, scale int) (infra string) {
 	s := cs.ws
 	tc, br, err := dialWS(sv, cs)
 	if err != nil {
-		close(cs.gate)
+		cs.giveUp()
 		return "handshake: " + err.Error()
 	}
 	defer tc.Close()
@@ -96,10 +97,19 @@ func runWS(sv *server, cs *connState, seed int64, scale int) (infra string) {
 	go drain(br, drained)
 	wire := wireOf(s, rand.New(rand.NewSource(seed)))
 	if err := writeCut(tc, wire, s.Cuts); err != nil {
-		close(cs.gate)
+		cs.giveUp()
 		return "write: " + err.Error()
 	}
 	gate := time.Duration(s.GateMs*scale) * time.Millisecond
+	if s.End == "engine-stop" {
+		// the cell stops the engine and opens the gates; whatever the engine still runs must be over soon after Stop returned
+		<-sv.stopDone
+		if !waitCh(cs.done, time.Duration(1500*scale)*time.Millisecond) {
+			cs.noClose = true
+		}
+		time.Sleep(time.Duration(5*scale) * time.Millisecond)
+		return ""
+	}
 	switch s.End {
 	case "half-close":
 		_ = tc.CloseWrite()
@@ -125,18 +135,27 @@ func runHTTP(sv *server, cs *connState, scale int) (infra string) {
 	s := cs.hs
 	tc, err := dial(sv.addr)
 	if err != nil {
-		close(cs.gate)
+		cs.giveUp()
 		return "dial: " + err.Error()
 	}
 	defer tc.Close()
 	cs.raddr = tc.LocalAddr().String()
 	sv.byAdr.Store(cs.raddr, cs)
 	if err := writeCut(tc, httpWire(s), s.Cuts); err != nil {
-		close(cs.gate)
+		cs.giveUp()
 		return "write: " + err.Error()
 	}
 	gate := time.Duration(s.GateMs*scale) * time.Millisecond
 	drained := make(chan struct{})
+	if s.End == "engine-stop" {
+		go drain(tc, drained)
+		<-sv.stopDone
+		if !waitCh(cs.done, time.Duration(1500*scale)*time.Millisecond) {
+			cs.noClose = true
+		}
+		time.Sleep(time.Duration(5*scale) * time.Millisecond)
+		return ""
+	}
 	switch s.End {
 	case "keepalive-half-close":
 		go gateAfter(cs, gate)
@@ -319,6 +338,9 @@ func checkConn(cs *connState) []problem {
 	}
 	// skipped callbacks: something later ran although an earlier one never did
 	for _, k := range exp {
+		if cs.stopPhase != "" {
+			break // at shutdown the engine may drop work
+		}
 		if !seen[k] && grp[k] < lastGroup {
 			sig := pfx + "-order-" + mode
 			if mode == "transferred" && k == "O" {
@@ -330,6 +352,8 @@ func checkConn(cs *connState) []problem {
 	}
 	// (c) close handling
 	switch {
+	case nClose == 0 && cs.stopPhase != "":
+		// the close callback may be among the work the engine drops when it stops
 	case nClose == 0:
 		add("incomplete", pfx+"-no-close-"+mode, fmt.Sprintf("no close callback within the deadline; started %v of %v", obs, exp), false)
 	case nClose > 1:
@@ -347,7 +371,7 @@ func checkConn(cs *connState) []problem {
 		if prefixFrom >= 0 {
 			need = prefixFrom
 		}
-		if lastGroup < need {
+		if lastGroup < need && cs.stopPhase == "" {
 			add("missing", pfx+"-missing-"+mode, fmt.Sprintf("the connection was closed after %v; the client had sent %v before it closed", obs, exp), false)
 		}
 	}
@@ -362,6 +386,7 @@ type cellResult struct {
 	cases    []string
 	infra    []string
 	samples  []interface{}
+	stopMs   int
 }
 
 type problemAt struct {
@@ -369,12 +394,24 @@ type problemAt struct {
 	replay map[string]interface{}
 }
 
-func runCell(cell cellCfg, seed int64, nws, nhttp, gateMs, scale int) *cellResult {
+// runCell: stopMode "" = the connections end by themselves and the engine is stopped afterwards; "stop" / "shutdown" = every
+// connection has a callback held on its gate and further work queued behind it when Engine.Stop / Engine.Shutdown(ctx) begins; the
+// gates open a little after that
+func runCell(cell cellCfg, seed int64, nws, nhttp, gateMs, scale int, stopMode string) *cellResult {
 	res := &cellResult{cell: cell, problems: map[string]problemAt{}, stats: map[string]int{}}
 	sv, err := startServer(cell)
 	if err != nil {
 		res.infra = append(res.infra, "cannot start the engine: "+err.Error())
 		return res
+	}
+	if stopMode != "" && (cell.Exec == "smallpool" || cell.Exec == "pool3") {
+		// every connection holds one runner of the executor at the same time in this phase: keep their number below the
+		// executor's size (3 workers; a pool of bound 5 = 3 workers + the dispatcher), or the remaining handshakes starve
+		nws, nhttp = 1, 1
+	}
+	if stopMode != "" && cell.IOMod == "transferred" && cell.Epoll == "ET+ONESHOT" {
+		// message callbacks run on the poller goroutine there: a held one blocks its poller for every other connection
+		nws = 1
 	}
 	r := rand.New(rand.NewSource(seed))
 	var conns []*connState
@@ -382,11 +419,20 @@ func runCell(cell cellCfg, seed int64, nws, nhttp, gateMs, scale int) *cellResul
 		var cs *connState
 		if i < nws {
 			cs = newConnState(cell, i+1, "ws")
-			cs.ws = genWS(r, i+1, gateMs, true)
+			if stopMode != "" {
+				cs.ws = genWSStop(r, i+1, gateMs)
+			} else {
+				cs.ws = genWS(r, i+1, gateMs, true)
+			}
 		} else {
 			cs = newConnState(cell, i+1, "http")
-			cs.hs = genHTTP(r, i+1, gateMs)
+			if stopMode != "" {
+				cs.hs = genHTTPStop(r, i+1, gateMs)
+			} else {
+				cs.hs = genHTTP(r, i+1, gateMs)
+			}
 		}
+		cs.stopPhase = stopMode
 		sv.conns.Store(cs.cid, cs)
 		conns = append(conns, cs)
 	}
@@ -412,6 +458,42 @@ func runCell(cell cellCfg, seed int64, nws, nhttp, gateMs, scale int) *cellResul
 			}
 		}(i, cs)
 	}
+	stopReturned := true
+	if stopMode != "" {
+		// wait until every connection has its callback held (or gave up), a little more for the work behind it to be queued
+		waitCond(time.Second, func() bool {
+			for _, cs := range conns {
+				if atomic.LoadInt32(&cs.gated) == 0 && atomic.LoadInt32(&cs.failed) == 0 {
+					return false
+				}
+			}
+			return true
+		})
+		time.Sleep(time.Duration(3*scale) * time.Millisecond)
+		stopped := make(chan struct{})
+		tStop := time.Now()
+		go func() {
+			if stopMode == "shutdown" {
+				ctx, cancel := context.WithTimeout(context.Background(), 8*time.Second)
+				_ = sv.eng.Shutdown(ctx)
+				cancel()
+			} else {
+				sv.eng.Stop()
+			}
+			if sv.quit != nil {
+				close(sv.quit)
+			}
+			close(stopped)
+		}()
+		// the gates open a little after Stop has begun (Stop / Shutdown may wait for the handlers)
+		time.Sleep(time.Duration(gateMs*scale) * time.Millisecond)
+		for _, cs := range conns {
+			close(cs.gate)
+		}
+		stopReturned = waitCh(stopped, 20*time.Second)
+		res.stopMs = int(time.Since(tStop).Milliseconds())
+		close(sv.stopDone)
+	}
 	wg.Wait()
 	for _, cs := range conns {
 		log := cs.snapshot()
@@ -423,9 +505,13 @@ func runCell(cell cellCfg, seed int64, nws, nhttp, gateMs, scale int) *cellResul
 			if _, dup := res.problems[p.Sig]; dup {
 				continue
 			}
-			p.What = fmt.Sprintf("[%s] %s connection %d: %s; callback log (us): %s", cell, cs.kind, cs.cid, p.What, logString(log))
+			ph := ""
+			if stopMode != "" {
+				ph = " Engine." + stopMode + " while a callback is held"
+			}
+			p.What = fmt.Sprintf("[%s%s] %s connection %d: %s; callback log (us): %s", cell, ph, cs.kind, cs.cid, p.What, logString(log))
 			res.problems[p.Sig] = problemAt{p, map[string]interface{}{"harness": "overlap", "cell": cell, "cell_seed": seed, "kind": cs.kind,
-				"script": script, "margin_scale": scale, "callback_log": log, "connections_in_cell": len(conns)}}
+				"script": script, "margin_scale": scale, "callback_log": log, "connections_in_cell": len(conns), "engine_stop_phase": stopMode}}
 		}
 		// coverage
 		m := cell.IOMod
@@ -465,11 +551,24 @@ func runCell(cell cellCfg, seed int64, nws, nhttp, gateMs, scale int) *cellResul
 		for _, e := range log {
 			res.stats["callbacks."+e.K[:1]]++
 		}
+		if stopMode != "" {
+			if cs.noClose {
+				res.stats["stop-phase.no-close-callback."+cs.kind+"."+cell.String()]++
+			}
+			if atomic.LoadInt32(&cs.gated) == 0 {
+				res.stats["stop-phase.held-callback-not-reached."+cs.kind+"."+cell.String()]++
+			}
+		}
 		if len(res.samples) < 1 && cs.kind == "ws" {
 			res.samples = append(res.samples, map[string]interface{}{"cell": cell, "script": cs.ws, "callback_log": logString(log)})
 		}
 	}
-	if !sv.stop() {
+	if stopMode != "" {
+		res.stats["stop-phase."+stopMode+"."+cell.IOMod]++
+		if !stopReturned {
+			res.infra = append(res.infra, "Engine."+stopMode+" did not return within 20 s although every held callback was released")
+		}
+	} else if !sv.stop() {
 		res.infra = append(res.infra, "Engine.Stop did not return within 15 s")
 	}
 	return res
@@ -512,15 +611,18 @@ func main() {
 	_ = flag.String("model", "", "unused (no model in this harness)")
 	out := flag.String("out", "-", "")
 	verbose := flag.Bool("v", false, "cell timings on stderr")
+	phase := flag.String("phase", "both", "normal | stop | both: connections that end by themselves / Engine.Stop or Shutdown while callbacks are held")
+	stopMode := flag.String("stopmode", "", "stop | shutdown: force the kind of the stop phase (default: alternating)")
 	cellSeed := flag.Int64("cellseed", 0, "replay: run the cells selected by -cell with exactly this cell_seed (from a finding's replay)")
 	flag.Parse()
 	logging.SetLogger(quiet{})
 	rep := hx.NewReport("overlap", *seed)
-	rep.Rule = "per cell (IOMod x epoll mode x executor) several WebSocket and HTTP connections at once; WebSocket: 3-10 items (text / binary messages, 1-4 fragments, Ping / Pong also between fragments), handlers message / dataframe / both, one callback held on a gate until well after the client wrote everything, others sleep / yield, client write cut at 0-2 places, ends close-frame / half-close / Close() in a callback / Close() from another goroutine; HTTP: 2-8 pipelined GET / POST requests, one handler held, ends half-close mid-handler / after the responses / Connection: close; non-trivial = every connection (at least two callbacks in flight behind a held one); distinct = distinct (cell, seed, script shape)"
+	rep.Rule = "per cell (IOMod x epoll mode x executor) several WebSocket and HTTP connections at once; WebSocket: 3-10 items (text / binary messages, 1-4 fragments, Ping / Pong also between fragments), handlers message / dataframe / both, one callback held on a gate until well after the client wrote everything, others sleep / yield, client write cut at 0-2 places, ends close-frame / half-close / Close() in a callback / Close() from another goroutine; HTTP: 2-8 pipelined GET / POST requests, one handler held, ends half-close mid-handler / after the responses / Connection: close; plus, per cell, a stop phase on a fresh engine: every connection has its first callback held and more work (further requests; messages, control frames and a Close frame) queued behind it when Engine.Stop or Engine.Shutdown(ctx) begins, the gates open a little later - work may be dropped there, but nothing may run during or after the close callback; non-trivial = every connection (at least two callbacks in flight behind a held one); distinct = distinct (cell, seed, script shape)"
 	cells := allCells(*full)
 	type job struct {
 		cell cellCfg
 		seed int64
+		stop string // "" | stop | shutdown
 	}
 	var jobs []job
 	for round := 0; round < *n; round++ {
@@ -532,7 +634,16 @@ func main() {
 			if *cellSeed != 0 {
 				js = *cellSeed
 			}
-			jobs = append(jobs, job{c, js})
+			if *phase != "stop" {
+				jobs = append(jobs, job{c, js, ""})
+			}
+			if *phase != "normal" {
+				mode := []string{"stop", "shutdown"}[(round+ci)%2]
+				if *stopMode != "" {
+					mode = *stopMode
+				}
+				jobs = append(jobs, job{c, js, mode})
+			}
 		}
 	}
 	var mu sync.Mutex
@@ -564,14 +675,14 @@ func main() {
 					continue
 				}
 				t0 := time.Now()
-				res := runCell(j.cell, j.seed, *nws, *nhttp, *gateMs, 1)
+				res := runCell(j.cell, j.seed, *nws, *nhttp, *gateMs, 1, j.stop)
 				if *verbose {
-					fmt.Fprintf(os.Stderr, "%s seed %d: %.2fs problems %d infra %v\n", j.cell, j.seed, time.Since(t0).Seconds(), len(res.problems), res.infra)
+					fmt.Fprintf(os.Stderr, "%s %s seed %d: %.2fs (stop took %d ms) problems %d infra %v\n", j.cell, j.stop, j.seed, time.Since(t0).Seconds(), res.stopMs, len(res.problems), res.infra)
 				}
 				var again *cellResult
 				if len(res.problems) > 0 || len(res.infra) > 0 {
 					// once more, same scripts, four times the margins
-					again = runCell(j.cell, j.seed, *nws, *nhttp, *gateMs, 4)
+					again = runCell(j.cell, j.seed, *nws, *nhttp, *gateMs, 4, j.stop)
 					if *verbose {
 						var sg []string
 						for s := range again.problems {
@@ -621,7 +732,7 @@ func main() {
 					}
 					if len(res.infra) > 0 && len(again.infra) > 0 {
 						addFinding(hx.Finding{Kind: "oracle", Property: "C05", Signature: "overlap-harness-cell-failed", What: fmt.Sprintf("[%s] %v", j.cell, again.infra),
-							Replay: map[string]interface{}{"harness": "overlap", "cell": j.cell, "cell_seed": j.seed}})
+							Replay: map[string]interface{}{"harness": "overlap", "cell": j.cell, "cell_seed": j.seed, "engine_stop_phase": j.stop}})
 					}
 				}
 				if serious >= 6 {
